@@ -33,7 +33,9 @@ from vt.harness import Outcome
 ID = "C30"
 LEVEL = "exploration"
 CASES = {"quick": 2500, "thorough": 200000}
-RULE = ("generated command lines (see Domain). non-trivial: check - at least one invalid file or more than one file; generate - "
+RULE = ("generated command lines (see Domain; also: names of model parameters as custom arguments, values starting with a "
+        "single dash, and - when the language is deduced from the file name - files of two registered languages, each "
+        "with a generator of its own, in one command line). non-trivial: check - at least one invalid file or more than one file; generate - "
         "at least one custom argument whose name contains a dash or that is a bare flag, or a generator that declares "
         "parameters. distinct by canonical JSON")
 ASSUMPTIONS = [
